@@ -28,6 +28,18 @@ interface assumptions `ObserveSound` / `ObserveTight` relate the two; the
 driver instantiates `fires` with the specification and the correspondence check
 validates that choice against the real code on every run.
 
+Source ties: (1) `Source` below (normalised text, `C12_source_as_modelled`);
+(2) `readProp`, `tpc` and `handlerObserve` are proved equal, for every
+environment and state, to the interpretation (`Model/PropL.lean`) of the terms
+`harness/translate/propsrc.py` produces from `cached_property`,
+C `trait_property_changed` and `_create_property_observe_state.handler`
+(`Lemmas/PropertySource.lean`, `C12_step_is_source`).
+
+Listeners of the property: `Env.staticL` (`_p_changed`), `Env.staticAny`
+(`_anytrait_changed`), `St.dyn` (attached by name: trait-level list),
+`St.dynObj` (name-less `on_trait_change`: object-level list) — `listening`
+is `has_notifiers(tnotifiers, onotifiers)`.
+
 Core Lean only.  All functions total.
 -/
 import TraitsVerif.Py.Basic
@@ -238,13 +250,19 @@ inductive Old (Val : Type) where
   deriving DecidableEq, Repr
 
 /-- One `trait_property_changed` delivery: `(old, new)` as received by every
-listener present at that moment (`toStatic`: the class-level listener,
-`toDyn`: the dynamically attached ones). -/
+listener present at that moment (`toStatic`: the class-level `_p_changed`,
+`toDyn`: the ones attached by name to the property's trait (`on_trait_change(h, 'p')`,
+`observe(h, 'p')`: instance-trait notifier list), `toAny`: the class-level
+`_anytrait_changed` (sits in the notifier list of every class trait,
+has_traits.py `update_traits_class_dict`), `toObj`: the object-level handlers
+(`on_trait_change(h)` without a name: `obj->notifiers`)). -/
 structure Note (Val : Type) where
   old : Old Val
   new : Val
   toStatic : Bool
   toDyn : Bool
+  toAny : Bool := false
+  toObj : Bool := false
   deriving DecidableEq, Repr
 
 structure St (Val : Type) where
@@ -255,6 +273,8 @@ structure St (Val : Type) where
   calls : Nat := 0
   /-- dynamic listeners (`on_trait_change(h, 'p')`, `observe(h, 'p')`) attached? -/
   dyn : Bool := false
+  /-- object-level listeners (`on_trait_change(h)` with no name: `obj->notifiers`) attached? -/
+  dynObj : Bool := false
   notes : List (Note Val) := []
   /-- values seen by sibling handlers that read the property during a dispatch -/
   nested : List (Except Exc Val) := []
@@ -272,6 +292,8 @@ structure Env (Val : Type) where
   legacy : Bool := false
   /-- class-level listener on the property (`_p_changed`) -/
   staticL : Bool := false
+  /-- class-level `_anytrait_changed` -/
+  staticAny : Bool := false
   /-- `state["post_init"]` of the property's observer (has_traits.py:337: `False`) -/
   postInit : Bool := false
   /-- the observe machinery: is the property's handler called for this change? -/
@@ -341,14 +363,24 @@ def popOld (P : Env Val) (s : St Val) : Old Val :=
 def popCache (P : Env Val) (s : St Val) : St Val :=
   if P.cached then { s with cache := none } else s
 
+/-- `has_notifiers(tnotifiers, onotifiers)` (ctraits.c `trait_property_changed`):
+the trait-level list (class-level static handlers, handlers attached by name) or
+the object-level list is non-empty. -/
+def listening (P : Env Val) (s : St Val) : Bool :=
+  P.staticL || s.dyn || (P.staticAny || s.dynObj)
+
+/-- The delivery `call_notifiers(tnotifiers, onotifiers, obj, name, old, new)` makes. -/
+def mkNote (P : Env Val) (s : St Val) (old : Old Val) (v : Val) : Note Val :=
+  ⟨old, v, P.staticL, s.dyn, P.staticAny, s.dynObj⟩
+
 /-- `trait_property_changed(name, old)` (ctraits.c:1093-1132): when somebody
 listens, the new value is fetched through the ordinary attribute read (which
 fills the cache of a cached property) and `(old, new)` is delivered. -/
 def tpc (P : Env Val) (s : St Val) (old : Old Val) : St Val :=
-  if P.staticL || s.dyn then
+  if listening P s then
     match (readProp P s).1 with
     | .error _ => (readProp P s).2
-    | .ok v => { (readProp P s).2 with notes := (readProp P s).2.notes ++ [⟨old, v, P.staticL, s.dyn⟩] }
+    | .ok v => { (readProp P s).2 with notes := (readProp P s).2.notes ++ [mkNote P s old v] }
   else s
 
 /-- The observer's handler (has_traits.py:320-326). -/
@@ -417,6 +449,9 @@ inductive Step where
   | read
   | attach
   | detach
+  /-- `obj.on_trait_change(h)` / `obj.on_trait_change(h, remove=True)` (no name: anytrait) -/
+  | attachObj
+  | detachObj
   /-- replace the root by `Root(**kw)` -/
   | construct (ws : List Write)
   /-- replace the object graph by `pickle.loads(pickle.dumps(·))`,
@@ -429,6 +464,8 @@ def step (P : Env Val) (s : St Val) : Step → St Val
   | .read => (readProp P s).2
   | .attach => { s with dyn := true }
   | .detach => { s with dyn := false }
+  | .attachObj => { s with dynObj := true }
+  | .detachObj => { s with dynObj := false }
   | .construct ws => restore P (blank s.heap P.root) ws
   | .copy => restore P (blank s.heap P.root) (rootWrites (s.heap P.root))
 
